@@ -34,6 +34,7 @@ import (
 	"google.golang.org/protobuf/proto"
 	"google.golang.org/protobuf/testing/protocmp"
 
+	aftpb "github.com/openconfig/gribi/v1/proto/gribi_aft"
 	spb "github.com/openconfig/gribi/v1/proto/service"
 	gspb "google.golang.org/genproto/googleapis/rpc/status"
 )
@@ -147,6 +148,8 @@ func HasResultsCache(t testing.TB, res, wants []*client.OpResult, opt ...resultO
 	byNHID := map[uint64]*client.OpResult{}
 	byNHGID := map[uint64]*client.OpResult{}
 	byIPv4Prefix := map[string]*client.OpResult{}
+	byIPv6Prefix := map[string]*client.OpResult{}
+	byMPLSLabel := map[uint64]*client.OpResult{}
 
 	for _, r := range res {
 		byOpID[r.OperationID] = r
@@ -158,6 +161,10 @@ func HasResultsCache(t testing.TB, res, wants []*client.OpResult, opt ...resultO
 				byNHID[r.Details.NextHopIndex] = r
 			case r.Details.IPv4Prefix != "":
 				byIPv4Prefix[r.Details.IPv4Prefix] = r
+			case r.Details.IPv6Prefix != "":
+				byIPv6Prefix[r.Details.IPv6Prefix] = r
+			case r.Details.MPLSLabel != 0:
+				byMPLSLabel[r.Details.MPLSLabel] = r
 			}
 		}
 	}
@@ -182,6 +189,13 @@ func HasResultsCache(t testing.TB, res, wants []*client.OpResult, opt ...resultO
 			HasResult(t, []*client.OpResult{byNHID[want.Details.NextHopIndex]}, want, opt...)
 		case want.Details.IPv4Prefix != "":
 			HasResult(t, []*client.OpResult{byIPv4Prefix[want.Details.IPv4Prefix]}, want, opt...)
+		case want.Details.IPv6Prefix != "":
+			HasResult(t, []*client.OpResult{byIPv6Prefix[want.Details.IPv6Prefix]}, want, opt...)
+		case want.Details.MPLSLabel != 0:
+			HasResult(t, []*client.OpResult{byMPLSLabel[want.Details.MPLSLabel]}, want, opt...)
+		default:
+			// A want that cannot be looked up must not be silently accepted.
+			t.Fatalf("test error: cannot check for wanted message %v, details do not specify an entry when IgnoreOperationID is specified", want)
 		}
 	}
 }
@@ -323,6 +337,8 @@ func GetResponseHasEntries(t testing.TB, getres *spb.GetResponse, wants ...fluen
 		ipv4 map[string]*spb.AFTEntry
 		nhg  map[uint64]*spb.AFTEntry
 		nh   map[uint64]*spb.AFTEntry
+		ipv6 map[string]*spb.AFTEntry
+		mpls map[uint64]*spb.AFTEntry
 	}
 
 	netinsts := map[string]*cache{}
@@ -333,6 +349,8 @@ func GetResponseHasEntries(t testing.TB, getres *spb.GetResponse, wants ...fluen
 				ipv4: make(map[string]*spb.AFTEntry),
 				nhg:  make(map[uint64]*spb.AFTEntry),
 				nh:   make(map[uint64]*spb.AFTEntry),
+				ipv6: make(map[string]*spb.AFTEntry),
+				mpls: make(map[uint64]*spb.AFTEntry),
 			}
 		}
 		ni := netinsts[r.NetworkInstance]
@@ -349,6 +367,14 @@ func GetResponseHasEntries(t testing.TB, getres *spb.GetResponse, wants ...fluen
 		case *spb.AFTEntry_Ipv4:
 			if pfx := v.Ipv4.GetPrefix(); pfx != "" {
 				ni.ipv4[pfx] = r
+			}
+		case *spb.AFTEntry_Ipv6:
+			if pfx := v.Ipv6.GetPrefix(); pfx != "" {
+				ni.ipv6[pfx] = r
+			}
+		case *spb.AFTEntry_Mpls:
+			if _, ok := v.Mpls.GetLabel().(*aftpb.Afts_LabelEntryKey_LabelUint64); ok {
+				ni.mpls[v.Mpls.GetLabelUint64()] = r
 			}
 		}
 	}
@@ -385,6 +411,16 @@ func GetResponseHasEntries(t testing.TB, getres *spb.GetResponse, wants ...fluen
 			if _, ok := ni.ipv4[v.Ipv4.GetPrefix()]; !ok {
 				t.Fatalf("did not find entry, did not find ipv4: %s, got: %s\n", v.Ipv4, getres)
 			}
+		case *spb.AFTEntry_Ipv6:
+			if _, ok := ni.ipv6[v.Ipv6.GetPrefix()]; !ok {
+				t.Fatalf("did not find entry, did not find ipv6: %s, got: %s\n", v.Ipv6, getres)
+			}
+		case *spb.AFTEntry_Mpls:
+			if _, ok := ni.mpls[v.Mpls.GetLabelUint64()]; !ok {
+				t.Fatalf("did not find entry, did not find mpls: %s, got: %s\n", v.Mpls, getres)
+			}
+		default:
+			t.Fatalf("did not find entry, unsupported entry type %T", v)
 		}
 	}
 }
